@@ -8,7 +8,9 @@
                           exception (EErr), and its final state (warning counters, rank_pid)
      multi files          MultifileIngest: one __iter__, then __next__ until StopIteration/exception
      merged files         the emitted (event, file index) list;   proj j = sub-list that came from file j
-     kle a b              key a <= key b, key = ts or 0 when ts is absent (the code's sort key) *)
+     timed l              the ts values of the events of l that have a ts, in order (events without a ts -
+                          metadata - have no place in time and are not part of an order claim)
+     key / key_leb        the code's sort key: ts, or -inf (None, below every number) when ts is absent *)
 From Coq Require Import ZArith QArith List Bool String Permutation Sorted.
 Import ListNotations.
 From AiuModel Require Import Base Ingest Ingest_proofs.
@@ -39,17 +41,23 @@ Theorem C15_merge_per_file_order :
 Proof. exact merge_per_file_order. Qed.
 Print Assumptions C15_merge_per_file_order.
 
-(* (4) time order: if every per-file stream is ordered by the key (ts, 0 if absent), so is the merge *)
+(* (4) time order, as the property states it: if in every file the events that have a ts are
+   non-decreasing in ts, the events of the merged stream that have a ts are non-decreasing in ts.
+   For all rational ts (negative included); events without ts may stand anywhere in the files (a file
+   X@5, M, X@7 meets the hypothesis). *)
 Theorem C15_merge_sorted :
   forall files : list file,
-    all_ok (map init_file files) -> streams_sorted (map init_file files) ->
-    StronglySorted kle (map fst (merged files)).
+    all_ok (map init_file files) ->
+    Forall (fun s => StronglySorted Qle (timed (file_events s))) (map init_file files) ->
+    StronglySorted Qle (timed (map fst (merged files))).
 Proof. exact merge_sorted. Qed.
 Print Assumptions C15_merge_sorted.
 
-(* (4') a file whose raw events are ordered by the key yields an ordered stream (B/E pairs keep B.ts) *)
+(* (4') a file whose raw events that have a ts are non-decreasing yields a stream whose events that have
+   a ts are non-decreasing (B/E pairs keep B.ts, events are only dropped) *)
 Theorem C15_raw_sorted_stream_sorted :
-  forall s : fstate, StronglySorted kle (f_rest s) -> StronglySorted kle (file_events s).
+  forall s : fstate,
+    StronglySorted Qle (timed (f_rest s)) -> StronglySorted Qle (timed (file_events s)).
 Proof. exact raw_sorted_stream_sorted. Qed.
 Print Assumptions C15_raw_sorted_stream_sorted.
 
@@ -132,12 +140,12 @@ Proof.
     - (* file 0 is NOT ordered as raw text (the negative pair), its stream is *)
       vm_compute.
       repeat (apply SSorted_cons || apply SSorted_nil || apply Forall_cons || apply Forall_nil);
-        cbv beta; discriminate.
+        discriminate.
     - (* file 1 through (4'): raw order *)
       apply C15_raw_sorted_stream_sorted.
-      unfold init_file, ex_toks1, flatten. cbn [fl_processed fl_evs f_rest flat_map tok_raw app].
-      repeat (apply SSorted_cons || apply SSorted_nil || apply Forall_cons || apply Forall_nil).
-      unfold kle. vm_compute. discriminate.
+      vm_compute.
+      repeat (apply SSorted_cons || apply SSorted_nil || apply Forall_cons || apply Forall_nil);
+        discriminate.
     - vm_compute. apply SSorted_nil. }
   split; vm_compute; reflexivity.
 Qed.
@@ -158,3 +166,47 @@ Proof. vm_compute. split; reflexivity. Qed.
 Example C15_lone_E_raises :
   file_end (init_file (mkFile 1 (-1) false [xev 0 "E" 1 None 0])) = EErr "AssertionError".
 Proof. vm_compute. reflexivity. Qed.
+
+(* the time axis may start below zero, and an event without ts does not hold its file back: files
+   [M (no ts), X@-1/2] and [X@0].  Both meet the hypothesis of (4); the model emits M first (key -inf),
+   then X@-1/2, then X@0 - the timed events of the merge are -1/2, 0.
+   (With the former key "0 when ts is absent" the merge was X@0, M, X@-1/2.) *)
+Definition ex_neg_files : list file :=
+  [mkFile 21 (-1) false
+     [mkEv 0 (Some "M"%string) (Some "process_name"%string) None None (Some 0) (Some (None, None)) None;
+      xev 2 "X" (-1 # 2) (Some 1%Q) 0];
+   mkFile 22 (-1) false [xev 1000 "X" 0 (Some 1%Q) 1]].
+Example C15_negative_ts_meta_without_ts :
+  all_ok (map init_file ex_neg_files) /\
+  Forall (fun s => StronglySorted Qle (timed (file_events s))) (map init_file ex_neg_files) /\
+  map (fun it => (e_uid (fst it), e_ts (fst it), snd it)) (merged ex_neg_files) =
+    [(0, None, 0%nat); (2, Some (-1 # 2)%Q, 0%nat); (1000, Some 0%Q, 1%nat)] /\
+  timed (map fst (merged ex_neg_files)) = [(-1 # 2)%Q; 0%Q] /\
+  StronglySorted Qle (timed (map fst (merged ex_neg_files))).
+Proof.
+  assert (Hok : all_ok (map init_file ex_neg_files)).
+  { unfold all_ok, ex_neg_files. cbn [map]. repeat constructor. }
+  assert (Hs : Forall (fun s => StronglySorted Qle (timed (file_events s))) (map init_file ex_neg_files)).
+  { unfold ex_neg_files. cbn [map].
+    apply Forall_cons; [|apply Forall_cons; [|apply Forall_nil]]; vm_compute;
+      repeat (apply SSorted_cons || apply SSorted_nil || apply Forall_cons || apply Forall_nil); discriminate. }
+  split; [exact Hok|]. split; [exact Hs|]. split; [vm_compute; reflexivity|]. split; [vm_compute; reflexivity|].
+  exact (C15_merge_sorted ex_neg_files Hok Hs).
+Qed.
+
+(* an event without ts in the middle of a file does not make the file "unordered": [X@5, M, X@7] and [X@6]
+   meet the hypothesis of (4) (the former hypothesis - ordered by the key - excluded the first file) *)
+Example C15_mid_file_meta_without_ts :
+  let files := [mkFile 31 (-1) false
+                  [xev 0 "X" 5 (Some 1%Q) 0;
+                   mkEv 2 (Some "M"%string) (Some "process_name"%string) None None (Some 0) (Some (None, None)) None;
+                   xev 4 "X" 7 (Some 1%Q) 0];
+                mkFile 32 (-1) false [xev 1000 "X" 6 (Some 1%Q) 1]] in
+  Forall (fun s => StronglySorted Qle (timed (file_events s))) (map init_file files) /\
+  map (fun it => e_uid (fst it)) (merged files) = [0; 2; 1000; 4] /\
+  timed (map fst (merged files)) = [5%Q; 6%Q; 7%Q].
+Proof.
+  cbv zeta. split; [|split; vm_compute; reflexivity].
+  cbn [map]. apply Forall_cons; [|apply Forall_cons; [|apply Forall_nil]]; vm_compute;
+    repeat (apply SSorted_cons || apply SSorted_nil || apply Forall_cons || apply Forall_nil); discriminate.
+Qed.
